@@ -20,7 +20,7 @@ EXPLANATION = (
     "and the overflow message's declared length does not exceed its text; C20.3 every failure is a value: the parsers call neither exit nor panic, and -h/--help arms return an error value built from the help printer; "
     "C20.4 sibling agreement between parser and help text: the option literals the generated decision tree accepts are exactly the option names its help printer lists plus -h/--help, and subcommand parsers accept exactly the command names the help text lists (including names passed to format_args! as arguments, read from the promoted constants' memory); C20.6 tokens are consumed only by the declared grammar (option-literal match, value conversion, error message: a closed call vocabulary) and a token unknown to the subcommand parser (Ok(None)) leads to an error; C20.5 every argument is consumed or rejected: a derived ArgParse parser builds its Ok result only on a path on which args.next() returned None. "
     "C20.5 also: the result of every FromStr::from_str is matched and its Err side ends in an error; C20.7 also: a positional slot is filled only under its own is_none() test, and a counter that selects the slot advances only with a positional. "
-    "C20.3 also: every error a derived parser returns carries that parser's own help text; the shape corpus includes an option with a one-character long name, which must be offered as --x. NOT decided: round-tripping for every value assignment and option order, acceptance of exactly the declared grammar beyond the literal sets, user FromStr impls (outside; their errors are routed into the cause buffer).")
+    "C20.3 also: every error a derived parser returns carries that parser's own help text; the shape corpus includes an option with a one-character long name, which must be offered as --x. The shape corpus also holds structs whose subcommand member is declared first and in the middle (options declared after it must still be reachable). NOT decided: round-tripping for every value assignment and option order, acceptance of exactly the declared grammar beyond the literal sets, user FromStr impls (outside; their errors are routed into the cause buffer).")
 ASSUMPTIONS = ["the family of derived types = the types in tiny-cli/tests/derive_test.rs and sa/shapes/verif_shapes.rs", "invariant of ArgParseCauseBuffer: len <= 128 (established by C20.2)"]
 
 CLI = "tiny_std::unix::cli::"
